@@ -270,7 +270,24 @@ class RealNet:
                     threading.Thread(target=give_up, daemon=True).start()
             else:
                 try:
-                    addr = self._listener(name, (self._host_ip(host.lower()), port))
+                    try:
+                        addr = self._listener(name, (self._host_ip(host.lower()), port))
+                    except OSError as exc0:
+                        import errno
+
+                        if exc0.errno != errno.EADDRINUSE:
+                            raise
+                        # the address is taken (another process whose pid maps to the same block, or a listener of an earlier case that is
+                        # still being torn down): move this host to another loopback block and try again
+                        for k in range(1, 8):
+                            pid = os.getpid()
+                            self.host_ips[host.lower()] = f"127.{1 + (pid + 37 * k) % 250}.{(pid // 250 + 11 * k) % 250}.{200 + len(self.host_ips) % 40}"
+                            try:
+                                addr = self._listener(name, (self.host_ips[host.lower()], port))
+                                break
+                            except OSError as exc1:
+                                if exc1.errno != errno.EADDRINUSE or k == 7:
+                                    raise
                 except OSError as exc:
                     # e.g. the address block of this process collides with another process: a harness problem (exit 2), never a verdict
                     self.errors.append(f"cannot listen on {self._host_ip(host.lower())}:{port} for {name}: {exc!r}")
